@@ -12,7 +12,7 @@ import (
 
 // c09Extra holds the C09 rules added after the second seeded round.
 func c09Extra(c *eng.Ctx) {
-	c.Rule("R5", "a recorded grant is applied: every write of maxInflightWrapper.acquiredMaxInflight (store, swap, add, compare-and-swap) lies on paths that all pass a Resize of the wrapped limiter — the remembered grant never runs ahead of the limiter, so a grant repeated after a failure takes effect again", 2)
+	c.Rule("R5", "a recorded grant is applied: every write of maxInflightWrapper.acquiredMaxInflight (store, swap, add, compare-and-swap) lies on paths that all pass a Resize of the wrapped limiter — the remembered grant never runs ahead of the limiter, so a grant repeated after a failure takes effect again", 1)
 	c.Rule("R6", "readiness is raised only on evidence: setLeaderStatus receives true only as the outcome of a heartbeat answered 200 without error, or on the edge where discovery reports a different leader for the shard; nothing else resets the not-ready hysteresis", 2)
 
 	// ---- R5
@@ -48,8 +48,8 @@ func c09Extra(c *eng.Ctx) {
 			}
 		})
 		for _, w := range writes {
-			if fn.Signature.Recv() == nil && strings.HasPrefix(fn.Name(), "new") {
-				continue // constructor initialisation
+			if c09FreshTarget(w) {
+				continue // initialisation of a wrapper this function has just allocated (constructor)
 			}
 			n++
 			ok := eng.AlwaysAfter(w, isResize) || eng.AlwaysBefore(fn, w, isResize)
@@ -62,91 +62,145 @@ func c09Extra(c *eng.Ctx) {
 	}
 
 	// ---- R6
-	sls := c.MustMethod(pkgClientsets, "clientSets", "setLeaderStatus")
+	// setLeaderStatus, by name or — renamed / converted — by role: the function of the package
+	// that records a boolean parameter as the ready flag of a shard's heartbeat status
+	flagIdx := 3 // position of the flag among the parameters (receiver included)
+	sls := roleAnchor(c, c.W.Method(pkgClientsets, "clientSets", "setLeaderStatus"), "method ("+pkgClientsets+".clientSets).setLeaderStatus", func() []*ssa.Function {
+		var cs []*ssa.Function
+		for _, st := range eng.StoresToField(c.W.FuncsOf(pkgClientsets), pkgClientsets+".heartbeatStatus", "ready") {
+			p, isP := st.Val.(*ssa.Parameter)
+			if !isP || p.Parent() != st.Parent() || p.Parent().Parent() != nil {
+				continue
+			}
+			dup := false
+			for _, f := range cs {
+				dup = dup || f == p.Parent()
+			}
+			if !dup {
+				cs = append(cs, p.Parent())
+				flagIdx = eng.ParamIndex(p)
+			}
+		}
+		return cs
+	})
 	if sls == nil {
 		return
 	}
-	k := 0
-	for _, fn := range c.W.FuncsOf(pkgClientsets) {
-		for _, ci := range eng.CallsToFn(fn, sls) {
-			a := eng.Args(ci)
-			if len(a) != 3 {
-				continue
+	// The flag handed to setLeaderStatus may be true only when that is implied by evidence:
+	// (heartbeat status 200 ∧ no transport error) or (discovery reports a different leader).
+	// "v is true ⇒ FACT" is decided structurally (boolFact): through phis of flag variables,
+	// named conditions, negations, cells written in branches, and predicate helpers returning
+	// the flag (every return that can yield true must carry the fact in its guards); a constant
+	// true must sit at a call site guarded by the fact (lifted through helper call sites); a
+	// parameter of a helper is judged at every call site of the helper.
+	is200 := func(r eng.Rel, _ *callBind) bool {
+		if r.Op != token.EQL {
+			return false
+		}
+		kx, okx := eng.IntConst(r.X)
+		ky, oky := eng.IntConst(r.Y)
+		return (okx && kx == 200) || (oky && ky == 200)
+	}
+	noErr := func(r eng.Rel, _ *callBind) bool {
+		if r.Op != token.EQL {
+			return false
+		}
+		isRawErr := func(v ssa.Value) bool {
+			cc, i := eng.CallResultOf(v)
+			return cc != nil && i == 1 && eng.MethodNameIs(cc, "Raw")
+		}
+		return (eng.IsNilConst(r.Y) && isRawErr(r.X)) || (eng.IsNilConst(r.X) && isRawErr(r.Y))
+	}
+	leaderChanged := func(r eng.Rel, _ *callBind) bool {
+		if r.Op != token.NEQ {
+			return false
+		}
+		isLeader := func(v ssa.Value) bool {
+			_, path := eng.AccessPath(v)
+			return len(path) > 0 && path[len(path)-1] == "Leader"
+		}
+		return isLeader(r.X) || isLeader(r.Y)
+	}
+	var trueOnlyOn func(v ssa.Value, at ssa.Instruction, depth int) bool
+	trueOnlyOn = func(v ssa.Value, at ssa.Instruction, depth int) bool {
+		holds := func(atom func(eng.Rel, *callBind) bool) bool {
+			f := &boolFact{w: c.W, atom: atom}
+			if f.implies(v, true, nil, map[ssa.Value]bool{}, eng.LiftDepth) {
+				return true
 			}
-			k++
-			construct := fmt.Sprintf("setLeaderStatus#%d: true only on evidence", k)
-			leaderChanged := func(r eng.Rel) bool {
-				if r.Op != token.NEQ {
+			return eng.GuardedBy(at, func(r eng.Rel) bool { return atom(r, nil) })
+		}
+		if (holds(is200) && holds(noErr)) || holds(leaderChanged) {
+			return true
+		}
+		// the flag is handed down through a helper: every call site must supply evidence
+		if p, isP := v.(*ssa.Parameter); isP && depth > 0 {
+			ups := c.W.UpArgSites(p)
+			if len(ups) == 0 {
+				return false
+			}
+			for _, u := range ups {
+				if !trueOnlyOn(u.Arg, u.Site, depth-1) {
 					return false
 				}
-				isLeader := func(v ssa.Value) bool {
-					_, path := eng.AccessPath(v)
-					return len(path) > 0 && path[len(path)-1] == "Leader"
-				}
-				return isLeader(r.X) || isLeader(r.Y)
 			}
-			heartbeatOK := func(at ssa.Instruction) bool {
-				is200 := eng.GuardedBy(at, func(r eng.Rel) bool {
-					if r.Op != token.EQL {
-						return false
-					}
-					kx, okx := eng.IntConst(r.X)
-					ky, oky := eng.IntConst(r.Y)
-					return (okx && kx == 200) || (oky && ky == 200)
-				})
-				noErr := eng.GuardedByNil(at, func(v ssa.Value) bool {
-					cc, i := eng.CallResultOf(v)
-					return cc != nil && i == 1 && eng.MethodNameIs(cc, "Raw")
-				}, true)
-				return is200 && noErr
-			}
-			switch v := a[2].(type) {
-			case *ssa.Const:
-				if eng.IsBoolConst(v, false) {
-					c.Pass("R6", fn, construct, ci.Pos(), "")
+			return true
+		}
+		return false
+	}
+	// the sources of the flag: the call sites of the recording function; where a site merely
+	// hands on a parameter of a helper whose callers are all known, the call sites of that helper
+	// instead (so splitting the recording function into layers keeps one obligation per source)
+	type flagSite struct {
+		call ssa.CallInstruction
+		arg  ssa.Value
+	}
+	var sources func(f *ssa.Function, idx, depth int) []flagSite
+	sources = func(f *ssa.Function, idx, depth int) []flagSite {
+		var out []flagSite
+		for _, fn := range c.W.FuncsOf(pkgClientsets) {
+			for _, ci := range eng.CallsToFn(fn, f) {
+				args := ci.Common().Args
+				if idx < 0 || idx >= len(args) {
 					continue
 				}
-				c.Check("R6", fn, construct, ci.Pos(), eng.GuardedBy(ci.(ssa.Instruction), leaderChanged),
-					"a constant true reaches setLeaderStatus outside the leader-changed edge: every discovery round marks the shard ready and restarts the not-ready hysteresis, so a leader that fails its heartbeats keeps serving stale quotas")
-			case *ssa.Phi:
-				ok := true
-				for i, e := range v.Edges {
-					if eng.IsBoolConst(e, false) {
-						continue
-					}
-					if !eng.IsBoolConst(e, true) {
-						ok = false
-						continue
-					}
-					pred := v.Block().Preds[i]
-					if !heartbeatOK(pred.Instrs[len(pred.Instrs)-1]) {
-						ok = false
-					}
+				if p, isP := args[idx].(*ssa.Parameter); isP && depth > 0 && len(c.W.LiftSites(p.Parent())) > 0 {
+					out = append(out, sources(p.Parent(), eng.ParamIndex(p), depth-1)...)
+					continue
 				}
-				c.Check("R6", fn, construct, ci.Pos(), ok, "the ready flag may be true only on the edge 'heartbeat returned no error and status 200'")
-			default:
-				// a cell written in branches (captured variable): every store of true must sit on the evidence edge
-				ok := false
-				if ld, isLd := v.(*ssa.UnOp); isLd && ld.Op == token.MUL {
-					if al, isAl := ld.X.(*ssa.Alloc); isAl && al.Referrers() != nil {
-						ok = true
-						for _, r := range *al.Referrers() {
-							if st, isSt := r.(*ssa.Store); isSt && st.Addr == ssa.Value(al) {
-								if eng.IsBoolConst(st.Val, false) {
-									continue
-								}
-								if !eng.IsBoolConst(st.Val, true) || !heartbeatOK(st) {
-									ok = false
-								}
-							}
-						}
-					}
-				}
-				c.Check("R6", fn, construct, ci.Pos(), ok, "the ready flag may be true only on the edge 'heartbeat returned no error and status 200'")
+				out = append(out, flagSite{ci, args[idx]})
 			}
 		}
+		return out
+	}
+	k := 0
+	for _, src := range sources(sls, flagIdx, eng.LiftDepth) {
+		k++
+		construct := fmt.Sprintf("setLeaderStatus#%d: true only on evidence", k)
+		c.Check("R6", src.call.Parent(), construct, src.call.Pos(), trueOnlyOn(src.arg, src.call, eng.LiftDepth),
+			"the ready flag may be true only on the edge 'heartbeat returned no error and status 200' or on the edge where discovery reports a different leader: otherwise every round marks the shard ready and restarts the not-ready hysteresis, so a leader that fails its heartbeats keeps serving stale quotas")
 	}
 	if k == 0 {
 		c.Fail("R6", sls, "call sites of setLeaderStatus", sls.Pos(), "none found")
 	}
+}
+
+// c09FreshTarget reports whether the write w (a Store, or an atomic call taking the address as
+// its first argument) targets a field of an object allocated by the very function it sits in.
+func c09FreshTarget(w ssa.Instruction) bool {
+	var addr ssa.Value
+	switch x := w.(type) {
+	case *ssa.Store:
+		addr = x.Addr
+	case *ssa.Call:
+		if a := eng.Args(x); len(a) > 0 {
+			addr = a[0]
+		}
+	}
+	fa, ok := addr.(*ssa.FieldAddr)
+	if !ok {
+		return false
+	}
+	al, isAl := fa.X.(*ssa.Alloc)
+	return isAl && al.Parent() == w.Parent()
 }
